@@ -18,7 +18,11 @@ def b64line(rng, n=None):
 
 def sig_block(rng, nl, magic='SIGNATURE', headers=None, empty=True, lines=None, crc=None, end=None):
     out = ['-----BEGIN PGP %s-----' % magic]
-    out += headers if headers is not None else rng.choice([[], [], ['Version: GnuPG v1'], ['Comment: a: b', 'Version: 2']])
+    out += headers if headers is not None else rng.choice([[], [], ['Version: GnuPG v1'], ['Comment: a: b', 'Version: 2'],
+                                                           # armor header keys and values of every shape: colons in the key, no blank, blanks only
+                                                           ['Comment:signed at 12:30: by the key'], ['X-Key:0xC96C: release key', 'Version: 2'],
+                                                           ['urn:uuid: 1234'], ['a:b: c: d'], ['Comment: http://x.y/z'], ['K:  v'],
+                                                           ['Comment: é'], ['Comment : spaced key'], ['Charset: UTF-8', 'MessageID: a:b']])
     if empty:
         out.append('')
     out += lines if lines is not None else [b64line(rng) for _ in range(rng.randint(1, 4))] + ([b64line(rng, 3) + '='] if rng.random() < .3 else [])
@@ -39,11 +43,30 @@ def wellformed(rng, nbody=None):
     return text, nl.join(body), nl
 
 
+def nested(rng):
+    """a message whose signed body is itself a complete clear-signed message, dash-escaped as it should be or not"""
+    inner, _, nl = wellformed(rng)
+    inner = inner.replace('\r\n', '\n').rstrip('\n')
+    if rng.random() < .5:
+        inner = '\n'.join('- ' + l if l.startswith('-') else l for l in inner.split('\n'))
+    head = ['-----BEGIN PGP SIGNED MESSAGE-----'] + (['Hash: SHA256'] if rng.random() < .7 else []) + ['']
+    pre = [rng.choice(BODY_LINES[:2])] if rng.random() < .3 else []
+    post = [rng.choice(BODY_LINES[:2])] if rng.random() < .3 else []
+    return '\n'.join(head + pre + [inner] + post + sig_block(rng, '\n')) + rng.choice(['\n', ''])
+
+
 def malformed(rng):
+    if rng.random() < .08:
+        return nested(rng)
     text, body, nl = wellformed(rng)
     ls = text.split(nl)
     k = rng.random()
     i = rng.randrange(len(ls))
+    if rng.random() < .06:
+        # a line that is not an armor header where the headers stand
+        j = ls.index('-----BEGIN PGP SIGNATURE-----')
+        ls.insert(j + 1, rng.choice(['K: ', ': v', 'novalue', 'K:v', ' K: v', 'K : ']))
+        return nl.join(ls)
     if k < .25:
         del ls[i]
     elif k < .4:
@@ -177,7 +200,8 @@ def run(ctx):
     mal = [malformed(rng) for _ in range(ctx.n(6000, 80000))]
     plain = [G.control_text(rng) for _ in range(ctx.n(1500, 20000))] + ['', '\n', 'sometext\n', '-----BEGIN PGP SIGNED MESSAGE-----',
              '-----END PGP SIGNATURE-----', '-----BEGIN PGP SIGNED MESSAGE-----\n-----END PGP SIGNATURE-----']
-    texts = [w[0] for w in wf] + mal + plain
+    nest = [nested(rng) for _ in range(ctx.n(300, 3000))]
+    texts = [w[0] for w in wf] + mal + plain + nest
     jobs = [(fn, t) for t in texts for fn in ('pgp_search', 'is_signed', 'remove_signature')]
     res, culprit = guarded(jobs, ctx.n(400.0, 3000.0))
     if culprit is not None:
@@ -205,6 +229,12 @@ def run(ctx):
         ok = (r == body) if nl == '\n' else (r in (body, body + '\r'))
         if not ok:
             fails.append((text, 'well-formed message: body %r, returned %r' % (body, r)))
+    # a signed message inside a signed message: one envelope is removed, the outermost one (or nothing)
+    for t in nest:
+        r = by[('remove_signature', t)]
+        outer = t[t.index('\n\n') + 2:t.rindex('\n-----BEGIN PGP SIGNATURE-----')]
+        if r not in (outer, t):
+            fails.append((t, 'nested message: the body of the outer envelope is %r, returned %r' % (outer, r)))
     # through the paragraph parser
     for text, body, nl in wf[:ctx.n(500, 5000)]:
         a = call(debcon.get_paragraph_data, text, remove_pgp_signature=True)
